@@ -56,7 +56,8 @@ def run_sib(rec, variant):
     dim = len(rec["edges"])
     edges = bl.py_edges(rec["edges"], False)
     given_edges = copy.deepcopy(edges)
-    av = bl.arg_var(1) if dim == 1 else bl.arg_var2(variant % 2)
+    style = 0 if dim == 1 else (variant + len(rec["flow"]) + rec["cut"]) % 3
+    av = bl.arg_var(1) if dim == 1 else bl.arg_var2(style)
     var_before = copy.deepcopy(av.var_context)
     els = bl.elements(rec["kind"])
     bare = bool(variant % 2) and len(els) == 1
@@ -101,7 +102,7 @@ def run_sib(rec, variant):
                                     % ("another yielded context" if name.startswith("histogram") else name.rstrip(" 0123456789")))
                     break
             owners.append(("histogram %d.%d" % (c, k), mine))
-    return computes, expected, av, edges, dim, values, problems
+    return computes, expected, av, edges, dim, values, problems, style
 
 
 def ctx_dict(c):
@@ -173,7 +174,7 @@ def check_hists(rec, exp, out, av, edges, dim, worst, size, where):
     return ok
 
 
-def check_iter(rec, out, edges, dim, worst, size, variant):
+def check_iter(rec, out, edges, dim, worst, size, style):
     import lena.structures as ls
     if not out:
         return
@@ -181,7 +182,7 @@ def check_iter(rec, out, edges, dim, worst, size, variant):
     hist, context = copy.deepcopy(out[0])
     marker = ("not a histogram", {"m": 1})
     kw = {"select_bins": (lambda _: True)}
-    if dim == 2 and variant % 2 == 1:
+    if dim == 2 and style != 0:
         # one Variable for two coordinates has one name only: edges are rendered by the caller
         kw["create_edges_str"] = lambda cell_edges, var_context=None: repr(cell_edges)
     pristine = copy.deepcopy(context)
@@ -291,7 +292,7 @@ def replay(ctx, rec, n, worst):
     for variant in ((n % 2, 2 + n % 2) if n % 5 == 0 else (n % 4,) if n % 4 < 2 else (n % 2,)):
         where = "run" if variant >= 2 else "fill/compute"
         try:
-            computes, expected, av, edges, dim, values, problems = run_sib(rec, variant)
+            computes, expected, av, edges, dim, values, problems, style = run_sib(rec, variant)
         except Exception as exc:   # noqa
             worst.add("raised %s" % type(exc).__name__, size, {"scenario": bl.scen_text(rec), "exception": repr(exc), "where": where})
             continue
@@ -306,7 +307,7 @@ def replay(ctx, rec, n, worst):
         ok = check_flow_contexts(rec, values, worst, size, where) and ok
         out = [(h, snap) for h, snap, _ in computes[-1]]
         if ok and variant < 2:
-            check_iter(rec, out, edges, dim, worst, size, variant)
+            check_iter(rec, out, edges, dim, worst, size, style)
             if n % 3 == 0 or len(rec["flow"]) <= 1:
                 check_maps(rec, out, edges, dim, worst, size)
     ctx.case(["sib", rec["edges"], rec["flow"], rec["kind"], rec["cut"]], nontrivial=len(rec["flow"]) > 0)
@@ -376,6 +377,24 @@ def second_oracle(ctx, rec, worst):
         except Exception as exc:   # noqa
             out, again, got_exc = [], [], type(exc).__name__
         ctx.case(["sib-real", rec["edges"], rec["flow"], name], nontrivial=len(rec["flow"]) > 0)
+        if name.startswith("typed") and dim == 1:
+            # values that already carry a typed context.variable: composing it with the argument variable
+            # must not write into the argument variable's own var_context (compute() called twice)
+            av2 = bl.arg_var(1, typed=True)
+            before = copy.deepcopy(av2.var_context)
+            try:
+                sib2 = ls.SplitIntoBins(lena.core.FillComputeSeq(*mk()), av2, copy.deepcopy(edges))
+                for v in bl.make_values(rec["flow"], dim, False):
+                    if isinstance(v, tuple) and len(v) == 2 and isinstance(v[1], dict):
+                        v[1]["variable"] = {"name": "up", "type": "value", "value": {"name": "up"}}
+                    sib2.fill(v)
+                list(sib2.compute())
+                list(sib2.compute())
+            except Exception as exc:   # noqa
+                worst.add("raised %s" % type(exc).__name__, size, dict(base, where="flow values with a typed context.variable"))
+            if av2.var_context != before:
+                worst.add("SplitIntoBins writes into the var_context of its argument variable", size,
+                          dict(base, expected=repr(before), observed=repr(av2.var_context)))
         if not got_exc and [c for _, c in again] != [c for _, c in out]:
             kind = ("context.variable does not describe the argument variable"
                     if any(c.get("variable") != av.var_context for _, c in again) else
